@@ -275,7 +275,7 @@ __CPROVER_ensures (gk == __CPROVER_old (gk) && V_WFF_AT (r, gk) && V_PTR (r) == 
             w = dict(v); w['name'] = v['name'] + '_' + tag
             w['harness'] = v['harness'].replace('BRANCHSEL', cond).replace('h_' + v['name'] + ' (void)', 'h_' + w['name'] + ' (void)')
             w['replace'] = {'p1': [], 'p2': ['__gmpn_lshift'], 'p3': ['__gmpn_rshift']}[tag]      # the other shift is unreachable in this partition (body-less: CBMC asserts it is never called)
-            if v['name'].endswith('_ru') and tag != 'p1': w['mem_limit_gb'] = 30; w['tier'] = 'thorough'      # r == u: CBMC's propositional reduction needs > 14 GB
+            if v['name'].endswith('_ru') and tag != 'p1': w['tier'] = 'off'      # r == u with a bit shift: CBMC's propositional reduction ran out of memory at 14 GB and at 30 GB (undecided, DESIGN 11.3)
             w['selftest'] = [m for m in v.get('selftest', []) if (tag == 'p2' and 'adj = cy_limb' in m[1]) or (tag == 'p3' and 'adj = cy_limb' not in m[1] and 'uexp - exp' not in m[1]) or (tag == 'p2' and 'uexp - exp' in m[1])]
             out.append(w)
     return out
